@@ -219,6 +219,9 @@ class _ReadSourceGenerator:
 
             # Everything else - basic and composite types (and arrays of them)
             else:
+                if self.align and field.offset is None:
+                    # Without static offsets every field is aligned on the stream position at run time
+                    yield from flush()
                 if not current_block:
                     block_offset = current_offset
                 current_block.append(field)
